@@ -34,28 +34,52 @@ type inst struct {
 	Target string `json:"target"` // mini | flat3
 	Codec  int    `json:"codec"`
 	Seed   int    `json:"seed"` // selects the records
+	// FailAt > 0: the FailAt-th call of the instance's sink (Write) or source
+	// (Read/Seek) fails.  The instance's own history then includes the fault;
+	// what it produces up to the error must still not depend on others, and -
+	// the point of these scenarios - what it leaves behind in the process (the
+	// buffer pool) must not change what later instances produce.
+	FailAt int `json:"env_call_failing,omitempty"`
 }
 
+var errEnv = fmt.Errorf("injected environment fault")
+
 type schedSink struct {
-	buf bytes.Buffer
+	buf    bytes.Buffer
+	calls  int
+	failAt int
 }
 
 func (s *schedSink) Write(p []byte) (int, error) {
 	sched.Point("sink.Write")
+	s.calls++
+	if s.calls == s.failAt {
+		return 0, errEnv
+	}
 	return s.buf.Write(p)
 }
 
 type schedSource struct {
-	r *bytes.Reader
+	r      *bytes.Reader
+	calls  int
+	failAt int
 }
 
 func (s *schedSource) Read(p []byte) (int, error) {
 	sched.Point("source.Read")
+	s.calls++
+	if s.calls == s.failAt {
+		return 0, errEnv
+	}
 	return s.r.Read(p)
 }
 
 func (s *schedSource) Seek(off int64, whence int) (int64, error) {
 	sched.Point("source.Seek")
+	s.calls++
+	if s.calls == s.failAt {
+		return 0, errEnv
+	}
 	return s.r.Seek(off, whence)
 }
 
@@ -103,14 +127,14 @@ func body(in inst, file []byte, out *outcome) sched.Body {
 	return func() {
 		switch in.Kind {
 		case "writer":
-			s := &schedSink{}
+			s := &schedSink{failAt: in.FailAt}
 			if err := runWriter(in, s); err != nil {
 				out.err = err.Error()
 			}
 			out.bytes = s.buf.Bytes()
 		case "reader":
 			t := sut.Get(in.Target)
-			src := &schedSource{r: bytes.NewReader(file)}
+			src := &schedSource{r: bytes.NewReader(file), failAt: in.FailAt}
 			rr := drive.ReadAll(t, src, 16)
 			out.rows = rr.Snap
 			switch {
@@ -135,7 +159,7 @@ func solo(in inst) (outcome, []byte) {
 	var file []byte
 	if in.Kind == "reader" {
 		var b bytes.Buffer
-		if err := runWriter(inst{"writer", in.Target, in.Codec, in.Seed}, &b); err != nil {
+		if err := runWriter(inst{Kind: "writer", Target: in.Target, Codec: in.Codec, Seed: in.Seed}, &b); err != nil {
 			panic(err)
 		}
 		file = b.Bytes()
@@ -170,8 +194,8 @@ type scase struct {
 }
 
 func scenarios(thorough bool) []scenario {
-	w := func(t string, c, seed int) inst { return inst{"writer", t, c, seed} }
-	r := func(t string, c int) inst { return inst{"reader", t, c, 0} }
+	w := func(t string, c, seed int) inst { return inst{Kind: "writer", Target: t, Codec: c, Seed: seed} }
+	r := func(t string, c int) inst { return inst{Kind: "reader", Target: t, Codec: c} }
 	var out []scenario
 	add := func(name string, insts []inst, qb, tb int) {
 		bound := qb
@@ -233,6 +257,34 @@ func scenarios(thorough bool) []scenario {
 			u.Name = strings.TrimSuffix(u.Name, " [unbounded]")
 		}
 	}
+	// an instance whose environment fails at call k, then a healthy instance:
+	// every k, every codec (what the failed instance leaves in the pool must
+	// not reach the next one; the pool monitors see a double or missing Put)
+	fb := 0
+	if thorough {
+		fb = 1
+	}
+	for cd := 0; cd < 3; cd++ {
+		for _, tn := range []string{"mini", "flat3"} {
+			calls := envCalls(w(tn, cd, 0))
+			for k := 1; k <= calls; k++ {
+				a := w(tn, cd, 0)
+				a.FailAt = k
+				for _, mode := range []int{pool.Reuse, pool.ReusePoison} {
+					out = append(out, scenario{Name: fmt.Sprintf("%s writer failing at sink call %d/%d (%s), then B gzip", tn, k, calls, sut.Codec(cd)), Insts: []inst{a, w("flat3", 2, 0)}, Mode: mode, Bound: fb})
+					if cd == 1 {
+						out = append(out, scenario{Name: fmt.Sprintf("%s writer failing at sink call %d/%d (%s), then A' snappy", tn, k, calls, sut.Codec(cd)), Insts: []inst{a, w("mini", 1, 1)}, Mode: mode, Bound: fb})
+					}
+				}
+			}
+		}
+		calls := envCalls(r("mini", cd))
+		for k := 1; k <= calls; k++ {
+			a := r("mini", cd)
+			a.FailAt = k
+			out = append(out, scenario{Name: fmt.Sprintf("reader failing at source call %d/%d (%s), then A snappy", k, calls, sut.Codec(cd)), Insts: []inst{a, w("mini", 1, 0)}, Mode: pool.ReusePoison, Bound: 0})
+		}
+	}
 	// every ByteBuffer method as a scheduling point too (no reduction)
 	bp := 1
 	if thorough {
@@ -242,6 +294,30 @@ func scenarios(thorough bool) []scenario {
 	out = append(out, scenario{Name: "A+B gzip, buffer-method points", Insts: []inst{w("mini", 2, 0), w("flat3", 2, 0)}, Mode: pool.Reuse, Bound: 1, BufPoints: true})
 	out = append(out, scenario{Name: "A+C uncompressed, buffer-method points", Insts: []inst{w("mini", 0, 0), r("mini", 0)}, Mode: pool.Reuse, Bound: 1, BufPoints: true})
 	return out
+}
+
+// envCalls counts the sink / source calls of an instance's fault-free solo run.
+func envCalls(in inst) int {
+	sched.DataChoices = true
+	sched.StateHashing = false
+	pool.BufferPoints = false
+	pool.Mode = pool.Ideal
+	pool.ResetAll()
+	n := 0
+	if in.Kind == "writer" {
+		s := &schedSink{}
+		sched.Run([]sched.Body{func() { runWriter(in, s) }}, nil, 0)
+		n = s.calls
+	} else {
+		var b bytes.Buffer
+		if err := runWriter(inst{Kind: "writer", Target: in.Target, Codec: in.Codec, Seed: in.Seed}, &b); err != nil {
+			panic(err)
+		}
+		src := &schedSource{r: bytes.NewReader(b.Bytes())}
+		sched.Run([]sched.Body{func() { drive.ReadAll(sut.Get(in.Target), src, 16) }}, nil, 0)
+		n = src.calls
+	}
+	return n
 }
 
 type prepared struct {
@@ -254,7 +330,7 @@ func prepare(sc scenario) *prepared {
 	p := &prepared{sc: sc}
 	for _, in := range sc.Insts {
 		o, f := solo(in)
-		if o.err != "" {
+		if o.err != "" && in.FailAt == 0 {
 			panic("solo run fails: " + o.err)
 		}
 		p.refs = append(p.refs, o)
